@@ -72,7 +72,8 @@ def tagsOf (args : List String) (o : C15.Obs) : List String :=
   let k := match args with | _ :: k :: _ => ["k" ++ k] | _ => []
   let kd := match args with | _ :: _ :: kd :: _ => [kd] | _ => []
   let ch := match args with | _ :: _ :: _ :: c :: _ => ["chrony-" ++ c] | _ => []
-  let lag := if args.any (·.startsWith "lag=") then ["lag"] else []
+  let lag := (if args.any (·.startsWith "lag=") then ["lag"] else []) ++
+    (args.filter (·.startsWith "env=")).map (fun t => t.replace "=" "-")
   let death := if C15.hasDeath o.log then ["death"] else ["nodeath"]
   let both := if o.log.any deathOfPoller && o.log.any deathOfWriter then ["bothDied"] else []
   let crashP := if o.log.contains .crashP then ["brokenChannelPanic"] else []
